@@ -93,3 +93,35 @@ def replay_backslash(only=None):
             if "a\\d" not in (got or ""):
                 return {"confirmed": True, "input": {"source": src}, "actual": got, "expected": 'C, name="a\\d"', "how": "bind name literal altered"}
     return {"confirmed": False}
+
+
+def placeholder_obligations(prop, module="ford.sourceform", replay=None):
+    """literal placeholders (`"0"`, `"1"`, ...) are put back with `QUOTES_RE.sub(<callable>, text[, count=1])`.  When the call replaces *every* placeholder of the text (no
+    `count=1`), the callable has to pick the literal of the placeholder it is given: its parameter occurs in its body (`lambda m: strings[int(m.group()[1:-1])]`).  A callable
+    that ignores its argument puts one and the same literal into every place."""
+    _, tree = loader.module_source(module)
+    out = []
+    for fn in [x for x in ast.walk(tree) if isinstance(x, ast.FunctionDef)]:
+        k = 0
+        for c in ast.walk(fn):
+            if not (isinstance(c, ast.Call) and isinstance(c.func, ast.Attribute) and c.func.attr == "sub" and ast.unparse(c.func.value).endswith("QUOTES_RE") and c.args):
+                continue
+            repl = c.args[0]
+            if not isinstance(repl, ast.Lambda):
+                continue
+            once = any(kw.arg == "count" and isinstance(kw.value, ast.Constant) and kw.value.value == 1 for kw in c.keywords) or (len(c.args) > 2 and isinstance(c.args[2], ast.Constant) and c.args[2].value == 1)
+            params = [a.arg for a in repl.args.args]
+            uses = any(isinstance(n, ast.Name) and n.id in params for n in ast.walk(repl.body))
+            ok = uses or once
+            r = OR(id=f"{prop}.S.resub.placeholders.{fn.name}.site{k}", status=PROVED if ok else REFUTED, kind="S", role="pre", backend="ast", target=f"{module}.{fn.name}",
+                   desc=f"`{ast.unparse(c)[:90]}` (line {c.lineno}): every placeholder gets the literal it stands for")
+            if not ok:
+                r.witness = {"call": ast.unparse(c), "line": c.lineno}
+                r.detail = "the replacement ignores which placeholder it replaces: a text with two literals shows the same literal twice"
+                if replay:
+                    r.replay = replay()
+            out.append(r)
+            k += 1
+    if not out:
+        out.append(OR(id=f"{prop}.S.resub.placeholders.anchor", status=UNKNOWN, kind="S", target=module, detail="no QUOTES_RE.sub with a callable found"))
+    return out
